@@ -585,6 +585,13 @@ def suite_C16():
         if n >= 0:
             cases.append(('j%d' % k, 'int_radix(str_radix(%s, %d), %d)' % (lit(n), b, b), str(n), dict(n=n, base=b, what='round trip')))
             k += 1
+    # reading: digits at or above the base are refused, either letter case is accepted, bytes read like the same text
+    for txt, b, want in [('9', 8, 'ERR'), ('2', 2, 'ERR'), ('g', 16, 'ERR'), ('z', 35, 'ERR'), ('1_0', 10, 'ERR'), ('-5', 10, 'ERR'), ('FF', 16, '255'), ('ff', 16, '255'),
+                         ('Zz', 36, str(35 * 36 + 35)), ('777', 8, '511'), ('', 10, '0'), ('000', 7, '0')]:
+        cases.append(('ir%d' % k, 'int_radix("%s", %d)' % (txt, b), want, dict(text=txt, base=b, what='int_radix on text')))
+        k += 1
+        cases.append(('ib%d' % k, 'int_radix(utf8_encode("%s"), %d)' % (txt, b), want, dict(text=txt, base=b, what='int_radix on bytes')))
+        k += 1
     return '', cases
 
 
